@@ -623,7 +623,7 @@ def p_use_class(b, ci=None):
         if b.draw(st.integers(0, 2)) > 0:
             b.bind("%s.%s" % (inst.name, an), ad, True, ["attribute"])
     for mn, (kind, params, ret) in sorted(b.all_methods(cname).items()):
-        if mn.startswith("__") or b.draw(st.integers(0, 3)) == 0:
+        if mn.startswith("__") or (kind != "class" and b.draw(st.integers(0, 3)) == 0):
             continue
         recv = inst.name
         if kind == "property":
@@ -632,8 +632,11 @@ def p_use_class(b, ci=None):
         if kind == "static" and b.draw(st.booleans()):
             recv = b.qual(cname)
         if kind == "class":
-            recv = b.qual(cname) if b.draw(st.booleans()) else inst.name
-            b.bind("%s.%s()" % (recv, mn), ("inst", cname), True, ["classmethod"])
+            inherited = mn not in ci.methods
+            if b.init_of(ci):
+                continue        # cls() would need arguments
+            b.bind("%s.%s()" % (b.qual(cname), mn), ("inst", cname), True, ["classmethod"] + (["inherited-classmethod"] if inherited else []))
+            b.bind("%s.%s()" % (inst.name, mn), ("inst", cname), True, ["classmethod"] + (["inherited-classmethod"] if inherited else []))
             continue
         args = []
         rd, rx = ret, True
